@@ -388,6 +388,24 @@ Definition spec_table_count (t : bytes) (s : sstate) : Z :=
   + count_if (fun x : xr szset => nonempty (x_r x)) t (s_zset s) + count_if (fun x : xr slist => nonempty (x_r x)) t (s_list s)
   + count_if (fun _ : sval => true) t (s_kv s).
 
+(* ---------- the engine keys a state stands for, counted per key class ----------
+   order: kv, hsize, hash, ssize, set, zsize, zset (member keys), zscore (score index), lmeta, list.
+   Under wait_compact the element keys of cleared / expired generations are still there (garbage for the
+   compaction filter): the Map model keeps them too, so the numbers must agree with the engine. *)
+Definition sum_by {V} (f : V -> Z) (m : list (bytes * V)) : Z := fold_left (fun acc kv => acc + f (snd kv)) m 0.
+Definition b2z (b : bool) : Z := if b then 1 else 0.
+Definition map_engine_counts (s : mstate) : list Z :=
+  [ Z.of_nat (length (m_kv s));
+    sum_by (fun x : xr hcoll => b2z (exists_coll (x_r x))) (m_hash s);
+    sum_by (fun x : xr hcoll => Z.of_nat (length (c_elems (x_r x)))) (m_hash s);
+    sum_by (fun x : xr scoll => b2z (exists_coll (x_r x))) (m_set s);
+    sum_by (fun x : xr scoll => Z.of_nat (length (c_elems (x_r x)))) (m_set s);
+    sum_by (fun x : xr zcoll => b2z (live_z (x_r x))) (m_zset s);
+    sum_by (fun x : xr zcoll => Z.of_nat (length (c_elems (z_c (x_r x))))) (m_zset s);
+    sum_by (fun x : xr zcoll => Z.of_nat (length (z_index (x_r x)))) (m_zset s);
+    sum_by (fun x : xr lcoll => b2z (l_exists (x_r x))) (m_list s);
+    sum_by (fun x : xr lcoll => Z.of_nat (length (l_elems (x_r x)))) (m_list s) ].
+
 (* ---------- running a whole sequence (used by the theorems) ---------- *)
 (* the read clock does not matter for the successor state; reads inside a sequence use `now` *)
 Definition map_run (compact : bool) (now : Z) (cs : list (Z * cmd)) (s : mstate) : mstate :=
